@@ -14,7 +14,7 @@
 From Coq Require Import List NArith Bool. Import ListNotations.
 From BddVerif Require Import Model.Bdd Model.Apply Model.Ops Model.Select Proofs.Sem Proofs.Canon Proofs.Reflect
   Proofs.SelectBase Proofs.SelectWalk Proofs.SelectWitness Proofs.SelectPred Proofs.SelectDP Proofs.SelectDPVal
-  Proofs.SelectAll Proofs.SelectNec Proofs.SelectBenign.
+  Proofs.SelectAll Proofs.SelectNec Proofs.SelectBenign Proofs.SelectCube.
 Open Scope N_scope.
 
 (* 1. every selector terminates without panic and returns None exactly on a contradiction (all RNG scripts) *)
@@ -82,6 +82,61 @@ Theorem C11_is_valuation_iff : forall b, Canonical b ->
   exists r, is_valuation b = Ok r /\ (r = true <-> unique_sat_list b).
 Proof. exact is_valuation_iff. Qed.
 Print Assumptions C11_is_valuation_iff.
+
+(* 3'. the SEMANTIC reading (Proofs/SelectCube.v): on a canonical diagram "exactly one root-to-1 path" is "the function is a
+   single cube" — a satisfiable conjunction of literals over distinct variables: is_cube b := exists ds, NoDup (map fst ds) /\
+   forall v, eval b v = true <-> follows v ds (no literals = the tautology is a cube, a contradiction is not).  Reducedness is
+   essential (C11_is_clause_benign_refuted below).  The literals of a cube of a valid diagram are automatically < nvars b:
+   is_cube_in adds that requirement and is equivalent (C11_is_cube_in_iff). *)
+Theorem C11_is_clause_semantic : forall b, Canonical b ->
+  exists r, is_clause b = Ok r /\ (r = true <-> is_cube b).
+Proof. exact is_clause_semantic. Qed.
+Print Assumptions C11_is_clause_semantic.
+
+Theorem C11_is_clause_semantic_in : forall b, Canonical b ->
+  exists r, is_clause b = Ok r /\ (r = true <-> is_cube_in b).
+Proof. exact is_clause_semantic_in. Qed.
+Print Assumptions C11_is_clause_semantic_in.
+
+Theorem C11_is_cube_in_iff : forall b, wf b -> (is_cube_in b <-> is_cube b).
+Proof. exact is_cube_in_iff. Qed.
+Print Assumptions C11_is_cube_in_iff.
+
+(* unique_sat_list (exactly one Vec<bool> of length nvars satisfies b) already is the semantic statement in the library's
+   vocabulary; the same on functions: exactly one satisfying valuation up to the variables >= nvars b, which the diagram
+   cannot read (unique_sat), equivalently the function is a minterm — a cube fixing exactly the variables < nvars b *)
+Theorem C11_is_valuation_semantic : forall b, Canonical b ->
+  exists r, is_valuation b = Ok r /\
+    (r = true <-> exists v, eval b v = true /\ forall w, eval b w = true -> forall x, x < nvars b -> w x = v x).
+Proof. exact is_valuation_semantic. Qed.
+Print Assumptions C11_is_valuation_semantic.
+
+Theorem C11_is_valuation_minterm : forall b, Canonical b ->
+  exists r, is_valuation b = Ok r /\
+    (r = true <-> exists ds : list dec, NoDup (map fst ds) /\ (forall x, In x (map fst ds) <-> x < nvars b) /\
+                    forall v, eval b v = true <-> follows v ds).
+Proof. exact is_valuation_minterm. Qed.
+Print Assumptions C11_is_valuation_minterm.
+
+(* x0 & !x2 & x4 over 5 variables: a canonical cube of 3 literals; ex_b below, (x0 & x2) | (!x0 & !x1), is canonical and not a cube *)
+Definition ex_cube3 : bdd := [mkNode 5 0 0; mkNode 5 1 1; mkNode 4 0 1; mkNode 2 2 0; mkNode 0 0 3].
+Definition ex_noncube : bdd := [mkNode 4 0 0; mkNode 4 1 1; mkNode 2 0 1; mkNode 1 1 0; mkNode 0 3 2].
+Example C11_is_clause_examples :
+  canonicalb ex_cube3 = true /\ is_clause ex_cube3 = Ok true /\ is_valuation ex_cube3 = Ok false /\
+  canonicalb ex_noncube = true /\ is_clause ex_noncube = Ok false.
+Proof. vm_compute. repeat split. Qed.
+Print Assumptions C11_is_clause_examples.
+
+(* ... hence, through the theorem: the first denotes a cube, the second does not *)
+Example C11_is_clause_examples_semantic : is_cube ex_cube3 /\ ~ is_cube ex_noncube.
+Proof.
+  split.
+  - destruct (is_clause_semantic ex_cube3) as (r & Hr & Hiff); [apply canonicalb_sound; vm_compute; reflexivity|].
+    apply Hiff. vm_compute in Hr. congruence.
+  - intros C. destruct (is_clause_semantic ex_noncube) as (r & Hr & Hiff); [apply canonicalb_sound; vm_compute; reflexivity|].
+    apply Hiff in C. vm_compute in Hr. congruence.
+Qed.
+Print Assumptions C11_is_clause_examples_semantic.
 
 (* 4. bottom-up selectors *)
 Theorem C11_most_positive_spec : forall b, Canonical b -> is_false b = false ->
